@@ -197,6 +197,11 @@ class Interp:
 
 
 def run_case(case):
+    if case.get('kind') == 'sched':
+        # ParserQueue fed by two threads under the deterministic scheduler (machinery of C10): the queue must hand
+        # messages out in the order the parser produced them, whatever the interleaving of the put_bytes calls
+        from checks import c10_concurrency as C10
+        return C10.run_case(case)
     it = Interp(case['data'], case.get('target', 'parser'))
     for op in case['ops']:
         it.step(tuple(op))
@@ -204,6 +209,8 @@ def run_case(case):
 
 
 def nontrivial(case):
+    if case.get('kind') == 'sched':
+        return bool(case.get('sched'))
     it = Interp(case['data'], case.get('target', 'parser'))
     try:
         for op in case['ops']:
@@ -332,7 +339,23 @@ def machine_shard(rec, shard):
     rec.machine(make_machine(target), n, steps, label=f'{target}-machine', seed_offset=k)
 
 
+def sched_shard(rec, shard):
+    from checks import c10_concurrency as C10
+    progs = [{'port': 'pqueue', 'senders': [1, 1], 'receivers': [{'mode': 'poll', 'quota': 2}], 'sysex': sx}
+             for sx in (False, True)] + [{'port': 'pqueue', 'senders': [2, 1], 'receivers': [{'mode': 'poll', 'quota': 3}]}]
+    prog = progs[shard]
+    for first in range(3):
+        base = {'kind': 'sched', 'prog': prog, 'sched': [], 'first': first}
+        rec.check(base, sample=(first == 0))
+        steps = C10.LAST['steps']
+        for i in range(steps):
+            for a in (1, 2):
+                rec.check({'kind': 'sched', 'prog': prog, 'sched': [[i, a]], 'first': first}, distinct=True, sample=False,
+                          classes=('two-feeder-schedules',))
+
+
 def main(ctx):
+    ctx.pmap('sched_shard', [0, 1, 2])
     ctx.pmap('cuts_shard', list(R.ALL_TYPES))
     n = 1200 if ctx.tier == 'quick' else 32000
     steps = 30 if ctx.tier == 'quick' else 50
